@@ -664,6 +664,8 @@ val coef_poly :
 
 val ksum : 'a1 -> ('a1 -> 'a1 -> 'a1) -> 'a2 list -> ('a2 -> 'a1) -> 'a1
 
+val doc_magnetization_half : bool
+
 type 'k mat = state0 -> state0 -> 'k
 
 val m_zero : 'a1 -> 'a1 mat
@@ -705,9 +707,18 @@ val spec_coulombS :
   'a1 -> 'a1 -> ('a1 -> 'a1 -> 'a1) -> ('a1 -> 'a1 -> 'a1) -> ('a2 -> int ->
   int -> int) -> 'a2 -> int -> int -> 'a1 -> 'a1 -> 'a1 mat
 
+val m_nud :
+  'a1 -> 'a1 -> ('a1 -> 'a1 -> 'a1) -> ('a2 -> int -> int -> int) -> 'a2 ->
+  int -> 'a1 mat
+
 val m_sz :
   'a1 -> 'a1 -> ('a1 -> 'a1 -> 'a1) -> ('a1 -> 'a1 -> 'a1) -> 'a1 -> ('a2 ->
   int -> int -> int) -> 'a2 -> int -> 'a1 mat
+
+val spec_magnetization_with :
+  'a1 -> 'a1 -> ('a1 -> 'a1 -> 'a1) -> ('a1 -> 'a1 -> 'a1) -> ('a1 -> 'a1 ->
+  'a1) -> 'a1 -> ('a2 -> int -> int -> int) -> bool -> 'a2 -> int -> 'a1 ->
+  'a1 mat
 
 val spec_magnetization :
   'a1 -> 'a1 -> ('a1 -> 'a1 -> 'a1) -> ('a1 -> 'a1 -> 'a1) -> ('a1 -> 'a1 ->
@@ -780,6 +791,16 @@ val x_Sminus_tot :
 val x_term_matrix :
   'a1 -> 'a1 -> ('a1 -> 'a1 -> 'a1) -> ('a1 -> 'a1) -> ('a2 -> int -> int ->
   int) -> ('a2, 'a1) term -> 'a1 mat
+
+val code_magnetization_half : bool
+
+val prepare_first_by_index : bool
+
+val cfg_fixed : bool
+
+val cfg_mag_half : bool
+
+val cfg_doc_half : bool
 
 type qC = q * q
 
